@@ -251,7 +251,7 @@ Proof.
   unfold startstop. destruct (_ || _); [destruct (0 <? _)|]; try apply RR_refl; apply RR_quiet; try reflexivity; exists []; split; reflexivity.
 Qed.
 Lemma RR_uptime s : RR s (fst (uptime_msec s)).
-Proof. unfold uptime_msec, uptime_usec. cbn [fst]. apply RR_quiet; try reflexivity. exists []; split; reflexivity. Qed.
+Proof. unfold uptime_msec, uptime_usec. cbn [fst]. apply RR_quiet; try reflexivity. eexists [_]; split; reflexivity. Qed.
 Lemma RR_emit o s : (forall t k, o <> OWire t k) -> RR s (emit o s).
 Proof.
   intros H. apply RR_quiet; try reflexivity. exists [o]. split; [reflexivity|].
